@@ -4750,6 +4750,10 @@ void SoPlexBase<R>::_untransformFeasibility(SolRational& sol, bool infeasible)
       _basisStatusCols.reSize(numOrigCols);
    }
 
+   // the auxiliary column is removed below; the column-indexed solution vectors must not keep its entry
+   sol._primal.reDim(numOrigCols);
+   sol._redCost.reDim(numOrigCols);
+
    // restore right-hand side
    for(int r = numRowsRational() - 1; r >= 0; r--)
    {
